@@ -110,30 +110,35 @@ PROPS = {
         "gen_facts": ["Gen.Dag.readComparisons = the comparison list the model transcribes"],
     },
     "C01": {
-        "level_text": "PARTIAL. Proved for unbounded histories: what a replica shows for a bug is a function of the multiset of non-empty "
-                      "operation packs its head reaches (read_ops_determined, convergence): merge commits, DAG shape, exchange order and "
-                      "enumeration orders are irrelevant; together with C02 (each merge keeps both sides' packs and stays readable clock-"
-                      "wise) and C03. Not proved as one theorem: that pull/push rounds bring all replicas to reach the same packs (system-"
-                      "level invariant over replicas and the go-git transport); this is validated by replica schedules (2..3 go-git "
+        "level_text": "FULL for the data and exchange logic, for unbounded histories, replicas and schedules: what a replica shows for a bug is "
+                      "a function of the multiset of non-empty operation packs its head reaches (read_ops_determined, convergence: merge "
+                      "commits, DAG shape, exchange order and enumeration orders are irrelevant); the breadth-first collection returns "
+                      "exactly the reachable commits (Lemmas.Reach: bfs_correct, mem_reach_iff, reach_trans); every outcome of a merge "
+                      "leaves a head that reaches exactly what the local and the remote head reached (merge_reach_fastforward, "
+                      "merge_reach_nothing, merge_reach_diverged); and at the level of what each replica reaches, one round of pull;push by "
+                      "everybody followed by one round of pull leaves every replica with everything the remote or anybody had "
+                      "(exchange_converges, any number of replicas, any orders). That the go-git transport implements push and pull as "
+                      "modelled, and that refs stay readable on the way (C02, C05), is validated by replica schedules (2..3 go-git "
                       "replicas + bare remote, unequal branch lengths, cross-merges, forced clock ties) with a convergence oracle.",
         "level_note": "Trusted: Lean kernel, harness (replica engine, independent decoder, oracle). KeyOK: equal (edit time, pack id) implies "
                       "equal operations. go-git's transport (all-or-nothing push, fast-forward-only tracking refs) is exercised, not modelled. "
                       "HopOK: a replica whose clock is far ahead (> 10^6) of an old bug's last edit writes a commit every reader refuses — "
                       "recorded under C05 (known finding).",
-        "required_theorems": ["read_ops_determined", "merge_commits_irrelevant", "convergence", "convergence_enum_indep"],
+        "required_theorems": ["read_ops_determined", "merge_commits_irrelevant", "convergence", "convergence_enum_indep",
+                              "merge_reach_fastforward", "merge_reach_nothing", "merge_reach_diverged", "exchange_converges"],
         "slices": ["C01"],
         "rule": "random schedules of {new bug, edit with 1..3 operations by any of 3 authors (several commits when authors alternate), "
                 "push, pull} on 2..3 go-git replicas sharing a bare remote, starting from equal clocks (ties) and a shared bug, then "
                 "pull/push rounds to quiescence; oracle: all replicas list the same operation ids in the same order and compile the same "
                 "snapshot; every replica's final view of every bug is also a `read` case for the model; non-trivial = DAG of > 2 commits; "
                 "distinct = distinct decoded DAGs",
-        "trusted_base": [KERNEL, TIE, "model: GitBugModel.Dag (read, opsOf) and Lemmas.PackSort", "go-git transport exercised, not modelled"],
+        "trusted_base": [KERNEL, TIE, "model: GitBugModel.Dag (read, opsOf, bfs, reach), GitBugModel.Knowledge (pull, push), Lemmas.PackSort, Lemmas.Reach", "go-git transport exercised, not modelled"],
         "assumptions": ["KeyOK", "the replicas' identities are known everywhere before bugs are exchanged (the scenario distributes them first)"],
         "gen_facts": ["Gen.Dag.readComparisons (see C03)"],
         "timeout": {"quick": 900, "thorough": 7200},
     },
     "C02": {
-        "level_text": "FULL on the merge decision logic (model of dag.merge): unreadable/invalid remote => invalid and nothing changes; absent "
+        "level_text": "No commit is lost by any scenario of a merge, for any store: the head the local ref is left at reaches everything the old local head reached (mergeExisting_keeps_local) and, when the merge reports updated or nothing, everything the remote head reached (mergeExisting_gets_remote), over the proved-correct breadth-first collection (Lemmas.Reach). FULL on the merge decision logic (model of dag.merge): unreadable/invalid remote => invalid and nothing changes; absent "
                       "locally => new at the remote head; equal or local ahead => nothing; remote ahead => fast-forward, updated; diverged => "
                       "merge commit with parents (local, remote) at an edit time above the clock and above every edit time of both sides, "
                       "updated, and the entity handed back is the one read at the new head; `nothing` iff the local head contains the remote "
@@ -146,7 +151,7 @@ PROPS = {
         "required_theorems": ["mergeDiverged_spec", "mergeDiverged_local_unreadable", "mergeExisting_nothing", "mergeExisting_fastforward",
                               "mergeExisting_diverged", "mergeExisting_nothing_iff", "merge_unreadable_remote", "merge_invalid_entity",
                               "merge_new", "merge_existing", "merge_commit_dominates_remote", "merge_frame", "merge_clock_monotone",
-                              "gen_merge_comparisons"],
+                              "gen_merge_comparisons", "mergeExisting_keeps_local", "mergeExisting_gets_remote", "mergeDiverged_reaches"],
         "slices": ["C02"],
         "rule": "same replica schedules as C01; every pull (Fetch + MergeAll) is one case: the decoded commits reachable from all local and "
                 "remote-tracking heads, the (local, remote) head pairs in ListRefs order, the clocks; compared: per-entity status, new head, "
